@@ -367,4 +367,13 @@ theorem C37_right_password_after_any_attempts {C : Crypto} {pw nonce msg : Bytes
   rw [C37_decrypt_pure]
   simp [SeqOp.outcome, C37_single_roundtrip h hn]
 
+/-- **History independence**: the results of a history of Encrypt/Decrypt calls in one process are
+    the per-call pure results, whatever was called before (in particular whatever password was
+    used before, and wherever the caller keeps its password bytes). -/
+theorem C37_history_independent (C : Crypto) (past calls : List Call) :
+    runCalls C past calls = calls.map (Call.result C) := by
+  induction calls generalizing past with
+  | nil => rfl
+  | cons c rest ih => simp [runCalls, ih]
+
 end Gossamer.C37
